@@ -159,3 +159,37 @@ Theorem C13_refuted_two_service_files_one_package : exists sc, refuted sc ["two-
 Proof. eexists. exact w_two_files. Qed.
 Theorem C13_refuted_service_without_methods : exists sc, refuted sc ["service-without-methods"%string] OnlyHttp ["unused"%string].
 Proof. eexists. exact w_no_methods. Qed.
+
+(* ---- several annotated things of one kind in one scope ------------------------------------------ *)
+(* The emitters print one block per discriminated oneof into ONE MarshalJSON / UnmarshalJSON body.  In
+   the model no obligation couples two blocks: a message with k discriminated oneofs meets its
+   obligations iff each oneof does alone ... *)
+Theorem C13_discriminated_oneofs_independent : forall sc fl m,
+  all_ok (feature_checks sc fl m FOneof) = forallb (fun o => all_ok (oneof_checks sc fl m o)) (disc_oneofs m).
+Proof. exact discriminated_oneofs_independent. Qed.
+Print Assumptions C13_discriminated_oneofs_independent.
+(* ... and every feature contributes at most one MarshalJSON to a message, however many oneofs / fields
+   of the message carry it *)
+Theorem C13_one_marshaljson_per_feature : forall p sc fl m ft,
+  count_occ feature_dec (emitted_features p sc fl m) ft <= 1.
+Proof. exact one_marshaljson_per_feature. Qed.
+Print Assumptions C13_one_marshaljson_per_feature.
+Example C13_several_discriminated_oneofs_vet :
+  accepted multi_oneof_schema = true /\ defects_C13 multi_oneof_schema = [] /\
+  go_vets multi_oneof_schema OnlyHttp = true /\ go_vets multi_oneof_schema OnlyClient = true /\ go_vets multi_oneof_schema Both = true /\
+  ts_loads multi_oneof_schema = true.
+Proof. exact multi_oneof_vets. Qed.
+(* several services in one file sharing request / response messages and header names (service and method
+   level), several methods of one service sharing them: builds, vets, loads *)
+Example C13_services_sharing_messages_and_headers_build :
+  let sc := shared_services ["GetUser"; "FindUser"; "PutUser"]%string ["GetOrder"; "PutOrder"]%string in
+  accepted sc = true /\ defects_C13 sc = [] /\ go_vets sc OnlyHttp = true /\ go_vets sc OnlyClient = true /\ go_vets sc Both = true /\ ts_loads sc = true.
+Proof. exact shared_services_build. Qed.
+(* with equal rpc names the Go server's package-level per-method declarations clash (known class) and
+   nothing else: the Go client vets and both TypeScript modules load *)
+Example C13_same_rpc_names_only_go_server_clashes :
+  let sc := shared_services ["Get"; "Find"; "Put"]%string ["Get"; "Put"]%string in
+  accepted sc = true /\ defects_C13 sc = [s "same-method-name-two-services"] /\
+  go_vets sc OnlyHttp = false /\ failing_classes sc OnlyHttp = [s "redeclared"] /\
+  go_vets sc OnlyClient = true /\ ts_loads sc = true.
+Proof. exact same_rpc_names_only_go_server_clashes. Qed.
